@@ -21,15 +21,15 @@ CLAIMS = {
   "note": "Virtual clock, non-decreasing readings assumed; store harness with creation instants within 4 s of now and TTLs <= 4 s + arbitrary ns (the kernel harness has no window).",
   "design": "6/C03"},
  "C04": {
-  "text": "Expiry-index invariant I-EM (every entry with a TTL is filed, with its conflict, under the bucket of its deadline; entries without TTL are not filed; a neighbour sharing an expiry second stays filed) is preserved by ShardedMap::try_insert/try_update/try_remove from an arbitrary I-EM state with TTLs switching on and off; together with C05's cleanup lemmas (only due buckets are handed out, only elapsed TTLs are removed) and C06's I-SP this gives 'nothing is swept early'. 'Nothing refused or evicted while there is room' is decided on the real LFUPolicy::add (c04_room_admits).",
+  "text": "Expiry-index invariant I-EM (every entry with a TTL is filed, with its conflict, under the bucket of its deadline; entries without TTL are not filed; a neighbour sharing an expiry second stays filed) is preserved by ShardedMap::try_insert/try_update/try_remove from an arbitrary I-EM state with TTLs switching on and off; together with C05's cleanup lemmas (only due buckets are handed out, only elapsed TTLs are removed) and C06's I-SP this gives 'nothing is swept early'. 'Nothing refused or evicted while there is room' is decided on the real LFUPolicy::add (c04_room_admits). The store's update / insert addressed at an entry whose TTL has elapsed but which was not swept yet still sees that entry (c04_store_update_ttl / _insert_ttl), so a re-insert in that window is applied and not lost.",
   "note": "<= 2 entries, 3-slot maps, 4 s window. The add harness uses an uninterpreted popularity function.",
   "design": "6/C04"},
  "C05": {
-  "text": "Bucket arithmetic at full width: an entry is filed under floor(deadline)+1; a pass at t may sweep buckets <= floor(t); every bucket that is due only holds elapsed TTLs; one bucket width after the deadline the bucket is due. ExpirationMap step lemmas (insert/update/remove keep neighbours filed; update un-files only the key); try_cleanup hands out every due bucket however late the pass is, and nothing that is not due. One cleanup tick at cache level removes only elapsed entries and all entries overdue by >= 1 s, each through on_evict exactly once with its charged cost.",
+  "text": "Bucket arithmetic at full width: an entry is filed under floor(deadline)+1; a pass at t may sweep buckets <= floor(t); every bucket that is due only holds elapsed TTLs; one bucket width after the deadline the bucket is due. ExpirationMap step lemmas (insert/update/remove keep neighbours filed; update un-files only the key); try_cleanup hands out every due bucket however late the pass is, and nothing that is not due. The sweep (ShardedMap::try_cleanup, for an arbitrary listing handed out by the index) removes only entries whose own TTL has elapsed and every such listed entry, reports each exactly once with its charged cost, and un-charges exactly what it removes.",
   "note": "That the ticker fires every cleanup interval (crossbeam tick) is outside; decided is that ANY pass at or after deadline + 1 s reclaims, so the delay is one bucket width plus the distance to the next tick. <= 2 entries.",
   "design": "6/C05"},
  "C06": {
-  "text": "I-SP (resident <=> charged, len() == number of charged entries) is preserved by each processor event (New / Update / Delete / cleanup tick) and by client remove + its Delete, from an arbitrary quiescent I-SP state, for every admission/eviction decision of the policy (contract stub).",
+  "text": "I-SP (resident <=> charged, len() == number of charged entries) is preserved by the processor's Update / Delete events, by its New event (as the New arm's wiring for every outcome of policy and store, plus the monolithic event in the thorough tier), by the cleanup sweep (ShardedMap::try_cleanup with the policy's cost/remove recorded) and by client remove + its Delete, from an arbitrary quiescent I-SP state, for every admission/eviction decision of the policy (contract stub).",
   "note": "Histories by induction; schedules only as sequences of whole events (DESIGN 5); the clear()-inside-handle_item race (D6) is decided by the interposition harness c06_race_clear_in_new and is a recorded known finding (known_findings.json). <= 2 residents (1 for New in the quick tier), TransparentKeyBuilder (conflict 0).",
   "design": "6/C06"},
  "C07": {
@@ -69,19 +69,19 @@ CLAIMS = {
   "note": "V = u64 only. Observation O2 (a vetoed or colliding insert overwrites the resident's charge through costs.update in add) is outside what the harnesses assert.",
   "design": "6/C16"},
  "C17": {
-  "text": "Real MetricsInner (11 x 256 striped atomics): add raises exactly counter t by delta for every hash, stripe index < 256, clear zeroes, ratio = hits/(hits+misses). Call sites (recorder stub): each lookup on the open cache adds exactly one Hit or Miss; I-M (keys_added - keys_evicted == #charged, cost_added - cost_evicted == charged total mod 2^64) is preserved by New/Update/Delete events including the two's-complement negative delta; histogram update keeps count == sum of buckets and hits the right bucket.",
-  "note": "sets_dropped / gets_kept / gets_dropped live inside select! arms Kani cannot compile (by reading). Life expectancy: no entry is ever tracked (O1) so that clause holds vacuously. Histogram with the first 4 of the 16 real bounds.",
+  "text": "MetricsInner's stripe index is < 256 for every 64-bit hash. Call sites (recorder stub in place of the striped atomics): each lookup on the open cache adds exactly one Hit or Miss; I-M (keys_added - keys_evicted == #charged, cost_added - cost_evicted == charged total mod 2^64) is preserved by New/Update/Delete events including the two's-complement negative delta; histogram update keeps count == sum of buckets and hits the right bucket.",
+  "note": "The real 11 x 256 striped-atomics implementation (add / get / clear / ratio) did not finish within 2 h and is NOT decided beyond its index arithmetic. sets_dropped / gets_kept / gets_dropped live inside select! arms Kani cannot compile (by reading). Life expectancy: no entry is ever tracked (O1) so that clause holds vacuously. Histogram with the first 4 of the 16 real bounds.",
   "design": "6/C17"},
  "C18": {
   "text": "TransparentKeyBuilder for bool and all ten integer types at full width: index == key as u64 == to_u64, conflict 0, deterministic, injective. Collision isolation at store level (conflict mismatch => NotExist/Conflict/None and the resident entry untouched: c02_store_*) and at cache level with a key builder that forces two keys onto one index: lookups, insert and remove of the second key never read, overwrite or remove the first key's value; the colliding value is refused through on_reject.",
   "note": "DefaultKeyBuilder String/&str equality (SeaHash + xxh64 over symbolic bytes) exceeds 12 GB even for 4 bytes: outside (String::hash delegates to str::hash by construction).",
   "design": "6/C18"},
  "C19": {
-  "text": "PARTLY decided: the processor side of the async flavour - cache::async::CacheProcessor::handle_insert_event (Update / Delete arms and the New arm's wiring for every outcome of the policy and the store) and handle_cleanup_event -> ShardedMap::try_cleanup_async - satisfy, from the same kind of arbitrary state, the same assertions as the sync flavour (charges, callbacks, resident <=> charged, only elapsed entries reclaimed and overdue ones always).",
-  "note": "NOT decided: AsyncCache's client methods (insert/remove/wait/clear/close), the two background task loops, executors/spawners, wakers, polling order, futures::select!, async_io::Timer: Kani cannot execute them. 'Same observable results for the same operation sequence' is therefore only decided as 'both processors satisfy the same step lemmas'.",
+  "text": "PARTLY decided. Processor side of the async flavour: cache::async::CacheProcessor::handle_insert_event (Update / Delete arms and the New arm's wiring for every outcome of the policy and the store) satisfies, from the same kind of arbitrary state, the same assertions as the sync flavour (charges, callbacks, resident <=> charged). Client side: AsyncCache::try_update, the whole insert path (closed flag, try_update, select!{send, default} with room in the buffer), try_remove (a Delete is queued whether or not the key was resident; value to on_exit once), get / get_mut (hit iff resident and TTL not elapsed, one Hit or Miss) and clear (one clear signal, store and policy emptied), each polled to completion in one poll over the real async_channel Send future with only Sender::try_send replaced by a FIFO contract, satisfy the assertions of the corresponding sync harnesses.",
+  "note": "NOT decided: a suspended send (full insert buffer / the default arm of the async insert: event-listener does not finish under CBMC), wait() and close(), get with a full access ring (AsyncLFUPolicy::push), the async sweep try_cleanup_async and the tick (CBMC out of memory at 50 GB), the two background task loops, executors/spawners, wakers, polling order, async_io::Timer. 'Same observable results for the same operation sequence' is therefore only decided as 'both flavours' client methods and processor arms satisfy the same step lemmas'.",
   "design": "6/C19, 8"},
  "C20": {
-  "text": "Panic-freedom is an implicit assertion of every harness (Kani checks every reachable panic, overflow, bounds). Specifically: CacheBuilder::finalize returns InvalidNumCounters / InvalidMaxCost / InvalidBufferSize exactly for a zero parameter; CountMinSketch::new works for every num_counters in [1, 65536]; RingStripe for buffer_items 0..3; a closed cache is inert.",
+  "text": "Panic-freedom is an implicit assertion of every harness (Kani checks every reachable panic, overflow, bounds). Specifically: CacheBuilder::finalize returns InvalidNumCounters / InvalidMaxCost / InvalidBufferSize exactly for a zero parameter; each of the twelve builder setters (core and public wrapper), from an arbitrary builder state, changes exactly the parameter it names, so what finalize validates and builds is what the user set, in any order of calls; CountMinSketch::new works for every num_counters in [1, 65536]; RingStripe for buffer_items 0..3; a closed cache is inert.",
   "note": "What finalize does after validation (thread spawning, Bloom::new float sizing) and worker liveness are outside; max_cost negative/1 only through the arbitrary max_cost in [-2^40, 2^40] of the policy harnesses.",
   "design": "6/C20"},
 }
